@@ -1742,26 +1742,38 @@ Proof. intros. eapply reachable_wellformed, reach_start; eauto. Qed.
 
 (* a resume of a session that satisfies the invariant is rejected, or fails the session at once, or
    enters the main loop in a state that satisfies the loop invariant *)
+Definition resume_x0 (s : session) : st :=
+  with_session {| session_ := s; sprint_ := empty_sprint |} (fun s => set_status s SActive).
+
 Lemma resume_decompose : forall a s r tmo res,
   post_inv s -> resume_session a s r tmo = Resumed res ->
   (exists y wi c, res = ROk (fail_session y wi c) /\ core_inv (session_ y) /\ s_pushed (session_ y) = None /\
-                  frame {| session_ := s; sprint_ := empty_sprint |} y) \/
+                  frame {| session_ := s; sprint_ := empty_sprint |} y /\ waiting_run s = Some wi /\
+                  (y = {| session_ := s; sprint_ := empty_sprint |} \/
+                   exists pos, y = apply_resume (resume_x0 s) wi (Some (wi, pos)) r)) \/
   (exists x2 l, res = continue_until_wait (fuel_for a (session_ x2)) a x2 l /\ loop_inv x2 l /\
-                l_steps l = 0%Z /\ s_pushed (session_ x2) = None /\ (exists wi, l_cur l = Some wi) /\
-                frame {| session_ := s; sprint_ := empty_sprint |} x2).
+                l_steps l = 0%Z /\ s_pushed (session_ x2) = None /\
+                frame {| session_ := s; sprint_ := empty_sprint |} x2 /\
+                exists wi pos e op, waiting_run s = Some wi /\ l_cur l = Some wi /\ l_exit l = e /\
+                  find_resume_exit a (apply_resume (resume_x0 s) wi (Some (wi, pos)) r) wi (is_timeout r) tmo = FreOk x2 e op).
 Proof.
   intros a s r tmo res Hpost. unfold resume_session.
   destruct (sstatus_eqb (s_status s) SWaiting) eqn:Est; simpl; [|discriminate].
   apply sstatus_eqb_true in Est.
   destruct (waiting_run s) as [wi|] eqn:Ewr; [|discriminate].
   assert (Hfs : forall c res', Resumed (ROk (fail_session {| session_ := s; sprint_ := empty_sprint |} wi c)) = Resumed res' ->
-            (exists y wi c, res' = ROk (fail_session y wi c) /\ core_inv (session_ y) /\ s_pushed (session_ y) = None /\
-                  frame {| session_ := s; sprint_ := empty_sprint |} y) \/
+            (exists y wi0 c, res' = ROk (fail_session y wi0 c) /\ core_inv (session_ y) /\ s_pushed (session_ y) = None /\
+                  frame {| session_ := s; sprint_ := empty_sprint |} y /\ Some wi = Some wi0 /\
+                  (y = {| session_ := s; sprint_ := empty_sprint |} \/
+                   exists pos, y = apply_resume (resume_x0 s) wi0 (Some (wi0, pos)) r)) \/
             (exists x2 l, res' = continue_until_wait (fuel_for a (session_ x2)) a x2 l /\ loop_inv x2 l /\
-                l_steps l = 0%Z /\ s_pushed (session_ x2) = None /\ (exists wi, l_cur l = Some wi) /\
-                frame {| session_ := s; sprint_ := empty_sprint |} x2)).
+                l_steps l = 0%Z /\ s_pushed (session_ x2) = None /\
+                frame {| session_ := s; sprint_ := empty_sprint |} x2 /\
+                exists wi0 pos e op, Some wi = Some wi0 /\ l_cur l = Some wi0 /\ l_exit l = e /\
+                  find_resume_exit a (apply_resume (resume_x0 s) wi0 (Some (wi0, pos)) r) wi0 (is_timeout r) tmo = FreOk x2 e op)).
   { intros c res' H. inversion H; subst. left. exists {| session_ := s; sprint_ := empty_sprint |}, wi, c.
-    destruct Hpost as [Hc [Hp _]]. split; [reflexivity|]. split; [exact Hc|]. split; [exact Hp|apply frame_refl]. }
+    destruct Hpost as [Hc [Hp _]]. split; [reflexivity|]. split; [exact Hc|]. split; [exact Hp|].
+    split; [apply frame_refl|]. split; [reflexivity|left; reflexivity]. }
   destruct (match get_run s wi with
             | Some rn => match get_flow a (r_flow rn) with Some _ => false | None => true end
             | None => true end); [apply Hfs|].
@@ -1769,25 +1781,28 @@ Proof.
   destruct (path_location a s wi) as [[pos n]|]; [|apply Hfs].
   destruct (n_router n) as [[[w|] rres rcats rcases rdef]|]; try apply Hfs.
   destruct (negb (accepts w r)); [discriminate|].
-  cbv zeta.
-  set (x1 := apply_resume (with_session {| session_ := s; sprint_ := empty_sprint |} (fun s => set_status s SActive)) wi (Some (wi, pos)) r).
+  cbv zeta. fold (resume_x0 s).
+  set (x1 := apply_resume (resume_x0 s) wi (Some (wi, pos)) r).
   assert (M : forall l, l_cur l = Some wi -> l_exit l = None -> mid_inv x1 l wi None).
   { intros l Hc He. apply resume_mid_inv; auto. }
   assert (F1 : frame {| session_ := s; sprint_ := empty_sprint |} x1).
-  { unfold x1. destruct (apply_resume_shape (with_session {| session_ := s; sprint_ := empty_sprint |} (fun s => set_status s SActive)) wi (Some (wi, pos)) r)
-      as (g & _ & _ & _ & _ & F). exact F. }
+  { unfold x1. destruct (apply_resume_shape (resume_x0 s) wi (Some (wi, pos)) r) as (g & _ & _ & _ & _ & F). exact F. }
   set (l0 := {| l_cur := Some wi; l_node := None; l_exit := None; l_operand := []; l_step := None; l_steps := 0%Z; l_trigger := false |}).
   pose proof (find_resume_exit_shape a x1 wi (is_timeout r) tmo) as Hfre.
-  destruct (find_resume_exit a x1 wi (is_timeout r) tmo) as [x2 e op|x2|x2|]; try contradiction.
+  destruct (find_resume_exit a x1 wi (is_timeout r) tmo) as [x2 e op|x2|x2|] eqn:Efre; try contradiction.
   - intros H. inversion H; subst; clear H. right. eexists x2, _. split; [reflexivity|].
+    assert (Horigin : exists wi0 pos0 e0 op0, Some wi = Some wi0 /\ Some wi = Some wi0 /\ e = e0 /\
+               find_resume_exit a (apply_resume (resume_x0 s) wi0 (Some (wi0, pos0)) r) wi0 (is_timeout r) tmo = FreOk x2 e0 op0).
+    { exists wi, pos, e, op. repeat split; auto. }
     destruct Hfre as [[Hss Hact]|[-> Hfsh]].
     + split; [eapply mid_same; [apply (M l0); reflexivity|exact Hss|reflexivity|]|].
       * simpl. intros He. rewrite <- status_at_st_at. apply Hact. exact He.
       * split; [reflexivity|]. split; [rewrite (ss_pushed _ _ Hss); apply (mi_pushed _ _ _ _ (M l0 eq_refl eq_refl))|].
-        split; [eexists; reflexivity|]. eapply frame_trans; [exact F1|apply (ss_frame _ _ Hss)].
+        split; [eapply frame_trans; [exact F1|apply (ss_frame _ _ Hss)]|]. exact Horigin.
     + split; [eapply mid_fail_cur; [apply (M l0); reflexivity|exact Hfsh|reflexivity|reflexivity]|].
       split; [reflexivity|]. split; [rewrite (fs_pushed _ _ _ Hfsh); apply (mi_pushed _ _ _ _ (M l0 eq_refl eq_refl))|].
-      split; [eexists; reflexivity|]. eapply frame_trans; [exact F1|apply (fs_frame _ _ _ Hfsh)].
+      split; [eapply frame_trans; [exact F1|apply (fs_frame _ _ _ Hfsh)]|]. exact Horigin.
   - subst x2. intros H; inversion H; subst. left. exists x1, wi, FRouteError. split; [reflexivity|].
-    split; [apply (mi_core _ _ _ _ (M l0 eq_refl eq_refl))|]. split; [apply (mi_pushed _ _ _ _ (M l0 eq_refl eq_refl))|exact F1].
+    split; [apply (mi_core _ _ _ _ (M l0 eq_refl eq_refl))|]. split; [apply (mi_pushed _ _ _ _ (M l0 eq_refl eq_refl))|].
+    split; [exact F1|]. split; [reflexivity|right; exists pos; reflexivity].
 Qed.
